@@ -210,8 +210,8 @@ func (w *World) buildHandlers(idx int, cfg *HandlerCfg) [4]http.Handler {
 	if cfg.ReadMax > 0 {
 		opts = append(opts, connect.WithReadMaxBytes(cfg.ReadMax))
 	}
-	if cfg.FailCodec {
-		opts = append(opts, connect.WithCodec(&simCodec{name: "proto", inner: pbCodec{}}), connect.WithCodec(&simCodec{name: "json", inner: pbCodec{json: true}}))
+	if cfg.FailCodec || cfg.StrictCodec {
+		opts = append(opts, connect.WithCodec(&simCodec{name: "proto", inner: pbCodec{}, strict: cfg.StrictCodec}), connect.WithCodec(&simCodec{name: "json", inner: pbCodec{json: true}, strict: cfg.StrictCodec}))
 	}
 	var ics []connect.HandlerOption
 	for i := 0; i < cfg.NIntercept; i++ {
